@@ -56,6 +56,8 @@ def keyEq : Val → Val → Bool
   | .float a, b => (match b with
     | .float b' => (if F64.isZero a then 0 else a) == (if F64.isZero b' then 0 else b')
     | _ => false)
+  | .binary a, b => (match b with | .binary b' => a == b' | _ => false)
+  | .timespan a, b => (match b with | .timespan b' => a == b' | _ => false)
   | .undef, b => (match b with | .undef => true | _ => false)
   | .default, b => (match b with | .default => true | _ => false)
   | .arr as, b => (match b with | .arr bs => keyEqL as bs | _ => false)
